@@ -106,6 +106,23 @@ def body_laws(spec, stats):
         stats.nontriv(jhash(spec["nodes"]), sample=S.summarize(spec))
 
 
+def body_laws_phases(spec, stats):
+    """The same row check for every phase of a system with load phases."""
+    classify(spec, stats)
+    for k, v in spec.get("_gen", {}).get("excluded", {}).items():
+        stats.excluded[k] += v
+    sys = B.build(spec)
+    tab = Table(solve_or_skip(sys, stats))
+    phases = list(spec["phases"]) or [""]
+    nt = False
+    for ph in phases:
+        RC.check_rows(spec, tab, ph, 1e-6, 1e-6)
+        nt = nt or nontrivial(spec, tab, ph)
+    stats.cls("solved")
+    if nt:
+        stats.nontriv(jhash([spec["nodes"], spec["phases"]]), sample=S.summarize(spec))
+
+
 def mirrored(spec):
     m = S.clone(spec)
     for n in m["nodes"]:
@@ -168,6 +185,10 @@ def streams(tier, avoid):
     return [
         Stream("laws", body_laws, strategy=G.systems(o1),
                n={"quick": 1200, "thorough": 8000}, reduce=S.reductions),
+        Stream("laws_phases", body_laws_phases,
+               strategy=G.systems(G.Opts(max_nodes=12 if big else 8, phases=True, avoid=avoid,
+                                         zero_source=True, odd_phase_conf=True)),
+               n={"quick": 300, "thorough": 2500}, reduce=S.reductions),
         Stream("mirror", body_mirror, strategy=G.systems(o2),
                n={"quick": 400, "thorough": 3000}, reduce=S.reductions),
     ]
